@@ -58,7 +58,9 @@ def ast_from_string(value: str) -> datetime.datetime | str:
         # a date-time without a UTC offset is taken to be UTC, all timing
         # calculations use timezone aware values
         value = value.replace(tzinfo=UTC())
-    return value
+    # availabilityStartTime is a whole number of seconds (YYYY-MM-DDTHH:MM:SSZ),
+    # publishTime and the manifest update grid are derived from it
+    return value.replace(microsecond=0)
 
 def ast_to_string(value: datetime.datetime | str | None) -> str:
     if value in SPECIAL_AST_VALUES:
